@@ -110,6 +110,22 @@ class UserErrPrefix(Exception):
         self.what = what
 
 
+class FalsyErr(Exception):
+    """an error object that is falsy (a collection of problems that happens to be reported empty, a result-like error)"""
+    def __bool__(self):
+        return False
+
+
+class SizedErr(Exception):
+    def __len__(self):
+        return 0
+
+
+class FalsyGlomErr(GlomError):
+    def __bool__(self):
+        return False
+
+
 class MyBase(BaseException):
     pass
 
@@ -134,6 +150,7 @@ CATALOGUE = [
     ('MyGlomErrTyped', lambda: MyGlomErrTyped(7)), ('MyGlomErrObj', lambda: MyGlomErrObj(_User())),
     ('OverflowError', lambda: OverflowError(34, 'Numerical result out of range')), ('FloatingPointError', lambda: FloatingPointError('fp')),
     ('UserArithmeticError', lambda: UserArithmeticError('ledger out of balance')),
+    ('FalsyErr', lambda: FalsyErr('falsy')), ('SizedErr', lambda: SizedErr('sized')), ('FalsyGlomErr', lambda: FalsyGlomErr('falsy glom error')),
     ('DynErr(Exception)', lambda: _dyn(Exception)), ('DynErr(ValueError)', lambda: _dyn(ValueError)), ('DynErr(KeyError)', lambda: _dyn(KeyError)),
     ('KeyboardInterrupt', lambda: KeyboardInterrupt()), ('SystemExit', lambda: SystemExit(3)), ('MyBase', lambda: MyBase('base')),
 ]
@@ -558,6 +575,51 @@ def glom_detected(col):
                 col.violation('C04/glom-failure-not-a-GlomError:' + name, '%s raised %r' % (name, got.exc), None)
 
 
+def faults_inside_other_constructs(col, rng, n_exc):
+    """the fault is raised by a user callable that some OTHER construct invokes: the key of First / Iter().first, the stages of an
+    Iter pipeline, a Fold operator, a Group key or value, Invoke / Call functions, a Switch key in Auto mode, a binder's value,
+    the value of an Assign, a Ref body - alone and as a later step of a chain"""
+    from glom import Spec, Call, Invoke, S, Assign, Iter, Fold, Sum, Flatten, Merge, Ref, Switch, Pipe, Val
+    from glom.grouping import Group
+    from glom.streaming import First
+    f = Raiser()
+    ok_fn = lambda *a, **kw: a
+    shapes = [
+        ('First-key', lambda: First(f)), ('First-key-chained', lambda: (T, First(f))), ('First-key-after-two-steps', lambda: ('d', 'lst', First(f))),
+        ('Iter.first-key', lambda: Iter().first(f)), ('Iter.first-key-chained', lambda: ('d', 'lst', Iter().first(f))),
+        ('Iter-base', lambda: (Iter(f), list)), ('Iter.map', lambda: Iter().map(f).all()), ('Iter.filter', lambda: Iter().filter(f).all()),
+        ('Iter.takewhile', lambda: Iter().takewhile(f).all()), ('Iter.unique-key', lambda: Iter().unique(f).all()),
+        ('Iter.map-chained', lambda: ('d', 'lst', Iter().map(f).all())),
+        ('Fold-op', lambda: Fold(T, init=int, op=f)), ('Fold-subspec', lambda: Fold(f, init=int)), ('Sum-subspec', lambda: Sum(f)),
+        ('Flatten-subspec', lambda: Flatten(f)), ('Merge-subspec', lambda: Merge(f)), ('Fold-init', lambda: Fold(T, init=f)),
+        ('Group-key', lambda: Group({f: [T]})), ('Group-value', lambda: Group({T: f})), ('Group-list-element', lambda: Group([f])),
+        ('Invoke-func', lambda: Invoke(f).specs(T)), ('Call-func', lambda: Call(f, args=(T,))), ('Invoke-star-spec', lambda: Invoke(ok_fn).star(args=f)),
+        ('Switch-key-auto', lambda: Switch([(f, T)])), ('Switch-value', lambda: Switch([(T, f)])),
+        ('binder-value', lambda: (S(x=Spec(f)), S.x)), ('Assign-value-spec', lambda: Assign('d.new', Spec(f))),
+        ('Ref-body', lambda: Ref('r', (T, f))), ('Pipe-last', lambda: Pipe(T, T, f)), ('dict-value-after-chain', lambda: ('d', {'k': ('lst', f)})),
+        ('list-element-after-chain', lambda: ('d', 'lst', [f])), ('Spec-glom-entry', lambda: Spec((T, f))),
+    ]
+    always = [c for c in CATALOGUE if c[0] in ('ValueError', 'KeyError', 'IndexError', 'StopIteration', 'MyGlomErrPrefix', 'FalsyErr', 'SizedErr', 'FalsyGlomErr')]
+    for name, mk in shapes:
+        for ename, mkexc in always + rng.sample(CATALOGUE, n_exc):
+            probe = mkexc()
+            if isinstance(probe, StopIteration) and name.split('-')[0].split('.')[0] in ('First', 'Iter'):
+                continue      # the iterator protocol reserves StopIteration: inside map / filter / next() it ends the stream (as in plain Python)
+            if isinstance(probe, GlomError) and name == 'Switch-key-auto':
+                continue      # a key spec failing with a GlomError is "this case does not apply", by design
+            for cell, kw in matrix(probe):
+                e = mkexc()
+                f.exc = e
+                target = [3, 1, 2] if name.split('-')[0] in ('First', 'Iter', 'Iter.first', 'Iter.map', 'Iter.filter', 'Iter.takewhile', 'Iter.unique', 'Fold', 'Sum',
+                                                            'Flatten', 'Merge', 'Group') and 'chained' not in name and 'after' not in name \
+                    else {'d': {'k': 1, 'lst': [3, 1, 2]}}
+                got = call_base(G, target, mk(), **kw)
+                col.case(('construct-position', name, ename, cell), True)
+                col.count('faults_injected')
+                col.count('faults_inside_other_constructs')
+                judge_escape(col, e, got, kw, cell, 'fault raised by a callable invoked by %s' % name, 'construct ' + name)
+
+
 def run(ctx):
     col, rng = ctx.col, ctx.rng
     col.require('faults_injected', 5000)
@@ -569,6 +631,9 @@ def run(ctx):
         col.require('glom_detected_runs', 500)
     argument_position_faults(col, rng, 1 if not ctx.thorough else 6)
     col.require('argument_position_faults', 500)
+    if ctx.shard == 0:
+        faults_inside_other_constructs(col, rng, 1 if not ctx.thorough else 6)
+        col.require('faults_inside_other_constructs', 500)
     target_raised_faults(col, rng, 2 if not ctx.thorough else 8)
     col.require('target_raised_faults', 500)
     for i in range(ctx.n(700, 4000)):
